@@ -80,7 +80,7 @@ int64_t tsToMono(const struct timespec* ts, clockid_t clk) {
 }
 }
 
-namespace sim { uint64_t threadsCreated() { return threadsCreatedCount; } void setProcessorCount(int n) { nproc_knob = n; } uint64_t condOpsAfterDestroy() { return cond_after_destroy; } }
+namespace sim { uint64_t threadsCreated() { return threadsCreatedCount; } uint64_t threadsNotJoined() { uint64_t n = 0; for (Th* t : ths) if (!t->joined) n++; return n; } void setProcessorCount(int n) { nproc_knob = n; } uint64_t condOpsAfterDestroy() { return cond_after_destroy; } }
 
 extern "C" {
 
